@@ -59,7 +59,7 @@ def run_sessions(c, codecs, pids, n_random, n_exh, extra_reqs=(), big=False):
     for kx, se in crashes[:6]:
         c.violation("session crashed (%s): %s" % (reqs[kx].desc(), ans[kx][:160]), "session-crash",
                     {"stream": "dec", "request": lines[kx], "stderr": se})
-    rs_req, rs_idx, it_req, it_idx = [], [], [], []
+    rs_req, rs_idx, it_req, it_idx, ml_req, ml_idx = [], [], [], [], [], []
     nontrivial = set()
     for i, (q, al) in enumerate(zip(reqs, ans)):
         a = ldpc.Ans(al)
@@ -81,6 +81,11 @@ def run_sessions(c, codecs, pids, n_random, n_exh, extra_reqs=(), big=False):
         elif q.codec == sessions.LDPC and q.api == 0 and q.finish == 0 and q.cb == 0 and a.H is not None:
             it_req.append("I %d %d %d %s %s %s %s" % (q.k, q.r, q.L, "1" if a.LN == "1" else "0", a.Hs, a.Ys, " ".join(map(str, q.esis))))
             it_idx.append(i)
+        elif q.codec in (sessions.LDPC, sessions.P2D) and q.finish == 1 and a.H is not None and a.PM is not None and q.k + q.r <= 400:
+            # streaming part + of_finish_decoding on the IT/ML models (values only: callbacks do not change them)
+            ml_req.append("J %d %d %d %s %s %s %d %s %s" % (q.k, q.r, q.L, "1" if a.LN == "1" else "0", a.Hs, a.Ys, q.api, a.PM or "-",
+                                                            " ".join(map(str, q.esis if q.api == 0 else sorted(set(q.esis))))))
+            ml_idx.append(i)
     # ---- extracted models
     try:
         mexe = vlib.ocaml_model()
@@ -116,11 +121,31 @@ def run_sessions(c, codecs, pids, n_random, n_exh, extra_reqs=(), big=False):
                         if v != "-" and s < len(a.Y) and v != a.Y[s]:
                             c.proof_failed.append({"correspondence": "dec/it-values", "request": lines[i][:400], "source": s, "model": v, "encoded": a.Y[s]})
                             break
+        if ml_req:
+            rc, mout, _ = vlib.sh([mexe], input="\n".join(ml_req) + "\n", timeout=3000)
+            ml = mout.splitlines()
+            for j, i in enumerate(ml_idx):
+                a = ldpc.Ans(ans[i])
+                q = reqs[i]
+                want = ["S%d:%s:%s" % (s[1], s[2], s[3]) for s in a.steps]
+                want.append("F%d%d:%s:%s" % (1 if a.F[0] == 0 else 0, a.F[1], a.F[2], a.F[3]))
+                got = ml[j].split() if j < len(ml) else []
+                gv = [x for x in got if x.startswith("V")]
+                got = [x for x in got if not x.startswith("V")]
+                if got != want:
+                    c.proof_failed.append({"correspondence": "dec/ml-finish", "request": lines[i][:400], "c": " ".join(want)[:800], "model": " ".join(got)[:800],
+                                           "model_request": ml_req[j][:3000]})
+                    break
+                if gv:
+                    for s, v in enumerate(gv[0][1:].split(".")):
+                        if v != "-" and s < len(a.Y) and v != a.Y[s]:
+                            c.proof_failed.append({"correspondence": "dec/ml-values", "request": lines[i][:400], "source": s, "model": v, "encoded": a.Y[s]})
+                            break
     except vlib.BuildError as e:
         c.proof_failed.append({"model_build": str(e)[-1500:]})
     c.cov["evaluations"] = c.cov.get("evaluations", 0) + len(reqs)
     c.cov["distinct_nontrivial"] = c.cov.get("distinct_nontrivial", 0) + len(nontrivial)
-    c.cov["traces_validated_against_impl"] = c.cov.get("traces_validated_against_impl", 0) + len(rs_idx) + len(it_idx)
+    c.cov["traces_validated_against_impl"] = c.cov.get("traces_validated_against_impl", 0) + len(rs_idx) + len(it_idx) + len(ml_idx)
     if not c.cov["samples"]:
         c.cov["samples"] = [lines[0][:200], lines[len(lines) // 2][:200], lines[-1][:200]]
     c.cov["rule"] = ("one request = one full life cycle (encoder session builds all repair symbols; decoder session gets a list of ESIs through of_decode_with_new_symbol "
